@@ -268,7 +268,8 @@ def c05_6(ctx):
         if not (isinstance(it, ast.Call) and call_name(it) == 'range' and len(it.args) == 3 and N(it.args[0]) == 'i0' and N(it.args[1]) == NS('i1 + b') and N(it.args[2]) == 'b'):
             ctx.fail(fn, comp[0], 'range is %s, expected range(i0, i1 + b, b) (inclusive end)' % U(it))
         defs = {U(s.targets[0]): N(s.value) for s in ast.walk(fn.node) if isinstance(s, ast.Assign)}
-        if defs.get('i0') != 'self.dt2int[self.adjust(t0)]' or defs.get('i1') != 'self.dt2int[self.adjust(t1)]':
+        own = lambda t: (t or '').replace(', None)', ')').replace(', adj=None)', ')')       # adjust(t) == adjust(t, None): the calendar's own convention
+        if own(defs.get('i0')) != 'self.dt2int[self.adjust(t0)]' or own(defs.get('i1')) != 'self.dt2int[self.adjust(t1)]':
             ctx.fail(fn, comp[0], 'i0/i1 are not the table positions of the adjusted endpoints: %s, %s' % (defs.get('i0'), defs.get('i1')))
         if defs.get('b') != 'int(bump[:-1])':
             ctx.fail(fn, comp[0], 'step is not the integer part of the bump: %s' % defs.get('b'))
